@@ -499,6 +499,9 @@ class ConvexPolyhedron(Polyhedron):
         self._faces = sorted_faces
         self._find_neighbors()
 
+        # The cached edges were computed from the previous faces.
+        self.__dict__.pop("edges", None)
+
     def _surface_triangulation(self):
         """Output the vertices of simplices composing the polyhedron's surface.
 
